@@ -43,8 +43,8 @@ ASSUMPTIONS = [
 ]
 
 NAMES = ['n1', 'n2', 'n3', 'n4']
-GROUPS = ['g1', 'g2', 'g3']
-LOCS = ['l1', 'l2', 'l3']
+GROUPS = ['g1', 'G2', 'g3']     # plain string order: 'G2' < 'g1'
+LOCS = ['l1', 'L2', 'l3']
 
 
 class VirtualTime:
@@ -469,15 +469,24 @@ def run_exhaustive(acc, depth, reduced, part, parts):
 
 
 # ---- SortedList ---------------------------------------------------------------------
-VALUES = ['a', 'b', 'c', 'd', 'e', 'f', 'g']
-PROBES = VALUES + ['', 'aa', 'c5', 'zz', 'B']
+# names of lights, groups and locations differ in case too: the order is the
+# plain string order everywhere ('Den' < 'attic')
+VALUES = ['a', 'b', 'c', 'd', 'e', 'f', 'g', 'B', 'Den', 'E']
+PROBES = VALUES + ['', 'aa', 'c5', 'zz', 'C', 'Z']
 
 
-def check_sorted_list(acc, ops, probes, walk):
+def check_sorted_list(acc, ops, probes, walk, initial=()):
     from bardolph.lib.sorted_list import SortedList
-    real = SortedList()
-    model = []
-    case = {'kind': 'sorted', 'ops': ops, 'probes': probes, 'walk': walk}
+    # made from a collection of distinct names in any order (the way the
+    # group and location name lists are made), then edited
+    real = SortedList(list(initial)) if initial else SortedList()
+    model = sorted(initial)
+    case = {'kind': 'sorted', 'ops': ops, 'probes': probes, 'walk': walk,
+            'initial': list(initial)}
+    if list(real) != model:
+        acc.fail('sortedlist-content', 'made from {} the list is {} expected '
+                 '{}'.format(list(initial), list(real), model), case)
+        return
     for op, value in ops:
         if op == 'add':
             real.add(value)
@@ -586,10 +595,11 @@ def run_shard(spec):
         @progbase.hyp_settings(spec['examples'])
         @given(st.lists(op, max_size=12),
                st.lists(st.sampled_from(PROBES), min_size=1, max_size=6),
-               st.lists(op, max_size=6))
-        def run(ops, probes, walk):
+               st.lists(op, max_size=6),
+               st.lists(st.sampled_from(VALUES), max_size=5, unique=True))
+        def run(ops, probes, walk, initial):
             check_sorted_list(acc, [list(o) for o in ops], list(probes),
-                              [list(o) for o in walk])
+                              [list(o) for o in walk], list(initial))
         run()
     return acc
 
@@ -606,5 +616,6 @@ def replay(case):
     if case['kind'] == 'history':
         replay_history(acc, case['gc'], case['steps'])
     else:
-        check_sorted_list(acc, case['ops'], case['probes'], case['walk'])
+        check_sorted_list(acc, case['ops'], case['probes'], case['walk'],
+                          case.get('initial', ()))
     return [(f['sig'], f['what']) for f in acc.failures.values()]
